@@ -24,6 +24,7 @@ func init() {
 }
 
 func runC04(c *Ctx) {
+	c.Assumptions = append(c.Assumptions, "sort.Sort/sort.Stable call Less/Swap only on the slice they are given", "sync.RWMutex semantics")
 	c.Rule("C04.R1", "host names lower-cased on the configuration side and on the request side", 2)
 	c.Rule("C04.R2", "virtual-host lookup order equals the documented precedence; wildcard scans return the first suffix match", 7)
 	c.Rule("C04.R3", "wildcard lists sorted longest suffix first before use", 2)
